@@ -391,5 +391,96 @@ theorem fit_inplace_counterexample :
       = [[.num 4, .num 8], [.num 6, .num 2]] := by
   refine ⟨by decide +kernel, by decide +kernel, by decide +kernel⟩
 
+/-! ## Phase 5: translator obligations.  `Generated/C04Stages.lean` is regenerated from the CURRENT coba source on every run
+(`harness/props/c04.py`, `pre_build`, Python `ast`); these theorems say that what was extracted is what the model assumes. -/
+
+/-- the classes of environments/filters.py, pipes/filters.py and the environment sources that write instance attributes outside
+`__init__` (per-object state that survives between reads), with the attributes, are exactly the rows of the model's `stageTable`;
+the file holds exactly the filter classes the model knows; the only iterator / generator / defaultdict a filter creates in
+`__init__` and keeps is Densify's look-up table -/
+theorem stage_table_matches_source :
+    Generated.extracted = true ∧
+    Generated.envStateful = stageRows "env" ∧ Generated.pipeStateful = stageRows "pipe" ∧ Generated.srcStateful = stageRows "src" ∧
+    Generated.envClasses = modelEnvClasses ∧
+    Generated.envHeld = modelEnvHeld ∧ Generated.pipeHeld = [] ∧ Generated.srcHeld = [] := stage_table_matches_source'
+
+/-- `stateAllowed` (what the driver answers when the harness reports an attribute of a pipe object that changed between reads)
+allows every extracted attribute, and nothing for an object none of whose classes is in the table -/
+theorem stage_table_sound :
+    (∀ r ∈ Generated.envStateful ++ Generated.pipeStateful ++ Generated.srcStateful, ∀ a ∈ r.2, stateAllowed [r.1] a = true) ∧
+    (∀ (mro : List String) (a : String), (∀ r ∈ stageTable, r.cls ∉ mro) → stateAllowed mro a = false) := stage_table_sound'
+
+example : stateAllowed ["Cache", "Cache", "EnvironmentFilter"] "_iter" = true ∧ stateAllowed ["Noise", "EnvironmentFilter"] "_rng" = false ∧
+    stateAllowed ["Shuffle", "Shuffle", "EnvironmentFilter"] "_seed" = false := by decide
+
+/-- `Environments.cache()` / `chunk()`: the model's steps append exactly the extracted `Cache(25)` (default `protected`, starting
+unread), `chunk` caches by default behind an identity `Chunk` -/
+theorem cache_shortcut_matches_source (w : World) (j : Nat) (o : Obj) :
+    Node.cache Generated.shortcutCacheSlice Generated.shortcutCacheProtected (if Generated.cacheStartsUnread then .unread else .done []) = shortcutCacheNode ∧
+    Generated.cacheDefaultSlice = some 25 ∧ Generated.cacheDefaultProtected = false ∧
+    stepObj w j o (.cache j) =
+      (pushObj w (some { src := o.src, nodes := (finalized w.fin (o.base ++ [shortcutCacheNode])).1,
+                         ownFin := (finalized w.fin (o.base ++ [shortcutCacheNode])).2 }), .derived) ∧
+    Generated.chunkCacheDefault = true ∧ Generated.chunkJoins = "Chunk" ∧ Generated.chunkIsIdentity = true ∧
+    (∀ u, chunkP.f u = u) ∧
+    stepObj w j o (.chunk j) =
+      (pushObj w (some { src := o.src, nodes := (finalized w.fin (o.base ++ [.pure chunkP, shortcutCacheNode])).1,
+                         ownFin := (finalized w.fin (o.base ++ [.pure chunkP, shortcutCacheNode])).2 }), .derived) :=
+  cache_shortcut_matches_source' w j o
+
+/-- `Environments.materialize()`: `keptByMaterialize` IS the extracted `nocache` predicate, the appended node is the extracted
+`pipes.Cache(None, True)`, the step finalizes first, returns the pipeline as it is when it ends with a cache and otherwise forces a read -/
+theorem materialize_matches_source (w : World) (j : Nat) (o : Obj) :
+    (∀ n : Node, keptByMaterialize n = Generated.nocache (isCache n) n.prot) ∧
+    Node.cache Generated.materializeCacheSlice Generated.materializeCacheProtected .unread = materializeCacheNode ∧
+    Generated.materializeOnlyWhenLastNotCache = true ∧ Generated.materializeForcesRead = true ∧ Generated.materializeFinalizesFirst = true ∧
+    (lastIsCache (finalized w.fin o.base).1 = true →
+      stepObj w j o (.materialize j) = (pushObj w (some { src := o.src, nodes := (finalized w.fin o.base).1, ownFin := false }), .derived)) ∧
+    (lastIsCache (finalized w.fin o.base).1 = false →
+      stepObj w j o (.materialize j) =
+        (let m : Obj := { src := o.src, nodes := (finalized w.fin o.base).1.filter keptByMaterialize ++ [materializeCacheNode], ownFin := false }
+         (pushObj (setObj w j { o with src := (m.touch .all).src }) (some (m.touch .all)), .derived))) :=
+  materialize_matches_source' w j o
+
+/-- `_finalize` (wrap `BatchSafe(Finalize())` unless one is in the chain; a fresh `EmptyCheck` starts with the extracted `_isempty`),
+`environments.Cache` copies, the logged-seed factor and keys of `Shuffle`, `BatchSafe`'s re-batching pipe, the batch size of `save()` -/
+theorem pipeline_constants_match_source (fin : PureSt) (ns : List Node) :
+    Generated.finalizeWrap = ["BatchSafe", "Finalize"] ∧
+    Generated.finalizeTest = [("e", "BatchSafe"), ("e._filter", "Finalize")] ∧
+    Generated.finalizeHolds = ["EmptyCheck"] ∧
+    finalized fin ns = (if ns.any isFinalize then (ns, false) else (ns ++ [.finalize fin Generated.emptyCheckInit], true)) ∧
+    Generated.envCacheCopies = true ∧
+    Generated.shuffleLoggedFactor = loggedSeedFactor ∧ Generated.shuffleLoggedKeys = loggedKeys ∧
+    Generated.batchSafeJoin = ["Unbatch", "self._filter", "Batch"] ∧
+    (∀ b ∈ Generated.saveBatchSizes, b = saveBatchModel + 1) ∧ Generated.saveBatchSizes ≠ [] :=
+  pipeline_constants_match_source' fin ns
+
+/-! ## Phase 5: Noise evaluated on content, the draws being those of `CobaRandom(seed)` (Model/C05) -/
+
+/-- `Noise(context=('i', lo, hi), seed)` as the model runs it (`FitStage.noiseInt`, generator created from the seed on every call of
+`filter`): every read — complete, abandoned after `k`, never started — is the demanded prefix of ONE sequence, the scan of the
+upstream rows from state `normInt seed` -/
+theorem noise_int_reads (sd : List Rat → Rat) (seed lo hi : Int) (rows : List (List C11.Val)) (ds : List Demand) :
+    fitReadsFresh sd (FitStage.noiseInt seed lo hi) (.dense rows) ds
+      = ds.map (fun d => demTake d (.dense (scanRows (noiseIntRow lo hi) (C05.normInt seed) rows))) := noise_int_reads' sd seed lo hi rows ds
+
+/-- one row: the generator advances once per number of the row (`None` and strings draw nothing), the row keeps its length -/
+theorem noise_int_row (lo hi : Int) (r : List C11.Val) (s : Nat) :
+    (noiseIntRow lo hi s r).1 = iterNext (r.filter drawsNoise).length s ∧ (noiseIntRow lo hi s r).2.length = r.length :=
+  noise_int_row' lo hi r s
+
+/-- the first `k` noisy rows depend on the first `k` upstream rows only (an abandoned read draws for what it saw) -/
+theorem noise_rows_prefix (step : Nat → List C11.Val → Nat × List C11.Val) (rows : List (List C11.Val)) (s k : Nat) :
+    (scanRows step s rows).take k = scanRows step s (rows.take k) := scanRows_take' step rows s k
+
+/-- the draws are those of `CobaRandom(1).randint(0, 9)` from successive generator states; a `None` in between draws nothing -/
+example : (noiseIntRow 0 9 (C05.normInt 1) [.num 0, .nil, .num 0, .num (1/2)]).2
+    = [.num ((C05.randint (C05.normInt 1) 0 9).2 : Rat), .nil, .num ((C05.randint (C05.next (C05.normInt 1)) 0 9).2 : Rat),
+       .num (1/2 + ((C05.randint (C05.next (C05.next (C05.normInt 1))) 0 9).2 : Rat))] := by decide +kernel
+
+/-- forced by the per-call generator: a generator kept in the instance (state after the first read) gives other contexts the second time -/
+theorem noise_int_kept_rng_counterexample :
+    scanRows (noiseIntRow 0 9) (C05.normInt 1) [[.num 0, .num 0]]
+      ≠ scanRows (noiseIntRow 0 9) (noiseIntRow 0 9 (C05.normInt 1) [.num 0, .num 0]).1 [[.num 0, .num 0]] := by decide +kernel
 
 end Coba.C04
